@@ -102,6 +102,18 @@ def gen_cases(tier, seed):
                 continue
             k += 1
             cases.append(dict(id="%s:%s" % (name, st), op=name, st=st, prog=prog, in_types=[t.to_json() for t in in_types], vseed=seed * 977 + k))
+    # random short programs with random parameters (axes, slices, shapes, transposition flags) for every scalar type
+    n_rand = 12 if tier == "quick" else 60
+    for st in SCALARS:
+        for r in range(n_rand):
+            rs = seed * 7919 + r * 131 + st_bits(st)
+            rng = random.Random(rs)
+            rp = gen.RandProg(rng, st, max_elems=12)
+            for _ in range(rng.choice([1, 2, 2])):
+                rp.new_input(A(rng.choice([s for s in gen.SHAPES if gen.nelem(s) <= 8]), st))
+            rp.grow(rng.randint(1, 3), weights=dict(structural=5, contract=3, reduce=3, container=2, elementwise=2, const=1))
+            k += 1
+            cases.append(dict(id="rand:%s:%d" % (st, rs), op="rand:" + "+".join(rp.ops_used), st=st, prog=rp.finish(), in_types=[t.to_json() for t in rp.in_types], vseed=rs))
     return cases
 
 
@@ -141,7 +153,7 @@ def run(chk, prop):
                 chk.count("opval_unsupported")
                 continue
             for m in v["mismatches"]:
-                is_c09 = m.get("op") in ("<check_type>",) or "PANIC" in str(m.get("why", "")) or "layout" in str(m.get("why", ""))
+                is_c09 = m.get("op") in ("<check_type>",) or "PANIC" in str(m.get("why", "")) or "layout" in str(m.get("why", "")) or "unexpected runtime error" in str(m.get("why", ""))
                 if prop == "C09" and is_c09:
                     chk.violation("opval|%s|%s" % (c["op"], "w128" if st_bits(c["st"]) == 128 else "narrow"),
                                   "%s inputs=%s: %s" % (c["id"], ins, m), dict(kind="opval", case=c["id"], prog=c["prog"], inputs=ins, mismatch=m))
